@@ -1056,7 +1056,11 @@ where
         &&& core_wf(self.cache@, self.deques.probation@, self.deques.write_order@, self.time_to_live.is_some())
     }
     /// timestamps exist whenever the policy that reads them is configured
-    pub open spec fn inv_ts(&self) -> bool { ts_wf(self.cache@, self.sp_has_expiry(), self.time_to_live.is_some()) }
+    pub open spec fn inv_ts(&self) -> bool {
+        &&& ts_wf(self.cache@, self.sp_has_expiry(), self.time_to_live.is_some())
+        // the timestamps live in the list nodes: an entry without its node could never expire
+        &&& forall|k: KeyId| #[trigger] self.cache@.contains_key(k) ==> self.cache@[k].ao().is_some() && (self.cache@[k].wo().is_some() <==> self.time_to_live.is_some())
+    }
     pub open spec fn inv_count(&self) -> bool { self.entry_count == self.deques.probation@.len() }
     pub open spec fn inv_weight(&self) -> bool { self.weighted_size == wsum(self.deques.probation@, self.cache@) }
     pub open spec fn wf(&self) -> bool {
@@ -1561,7 +1565,7 @@ where
             final(self).weigher == old(self).weigher, final(self).frequency_sketch_enabled == old(self).frequency_sketch_enabled, //@
             final(self).cache@ == Map::<KeyId, ValueEntry<K, V>>::empty(), //@ [C07,C01]
             final(self).deques.probation@.len() == 0, final(self).deques.write_order@.len() == 0, //@ [C07,C11]
-            final(self).entry_count == 0, final(self).weighted_size == 0, //@ [C10]
+            final(self).entry_count == 0, final(self).weighted_size == 0, //@ [C10,C03]
     {
         self.cache.clear();
         self.deques.clear();
@@ -1628,8 +1632,8 @@ where
             final(self).cache@[kid_rc(key)].value == old(self).cache@[kid_rc(key)].value, //@ [C01]
             final(self).cache@[kid_rc(key)].w() == policy_weight, //@ [C10,C04]
             // C05 / C06: the update restarts both timers
-            old(self).sp_has_expiry() ==> final(self).cache@[kid_rc(key)].ta() == timestamp, //@ [C06]
-            old(self).time_to_live.is_some() ==> final(self).cache@[kid_rc(key)].tm() == timestamp, //@ [C05]
+            old(self).sp_has_expiry() ==> final(self).cache@[kid_rc(key)].ta() == timestamp, //@ [C06,C03]
+            old(self).time_to_live.is_some() ==> final(self).cache@[kid_rc(key)].tm() == timestamp, //@ [C05,C03]
             // C12: the updated key becomes most recently used, nothing else moves
             final(self).deques.probation@ == moved_to_back(old(self).deques.probation@, pos_of_key(old(self).deques.probation@, kid_rc(key))), //@ [C12]
             // C04/C10: weight bookkeeping
@@ -1700,16 +1704,36 @@ where
                     least_prefix(deqs.probation@, cache@, candidate.weight as int, 0) == Some(victim_nodes.v@.len() as int), //@
                 AdmissionResult::Rejected => true, //@
             }, //@
-            match r { //@ [C13,C12,C04]
-                AdmissionResult::Admitted { victim_nodes, victims_weight } => { //@
-                    let n = victim_nodes.v@.len() as int; //@
-                    &&& 0 <= n <= deqs.probation@.len() //@
-                    &&& wsum(deqs.probation@.take(n), cache@) == victims_weight //@
-                    &&& victims_weight >= candidate.weight //@
-                    &&& (n > 0 ==> wsum(deqs.probation@.take(n - 1), cache@) < candidate.weight) //@
-                    &&& candidate.freq > fsum(deqs.probation@.take(n), *freq) //@
-                    &&& ptr_ids(victim_nodes.v@) == deqs.probation@.take(n).map_values(|x: N| x.id) //@
-                }, //@
+            // the same, clause by clause (what the caller's bookkeeping relies on)
+            match r { //@ [C08,C12]
+                AdmissionResult::Admitted { victim_nodes, victims_weight } => 0 <= victim_nodes.v@.len() <= deqs.probation@.len(), //@
+                AdmissionResult::Rejected => true, //@
+            }, //@
+            // C10/C03/C04: the reported weight is exactly the weight of the victims
+            match r { //@ [C10,C03,C04]
+                AdmissionResult::Admitted { victim_nodes, victims_weight } => wsum(deqs.probation@.take(victim_nodes.v@.len() as int), cache@) == victims_weight, //@
+                AdmissionResult::Rejected => true, //@
+            }, //@
+            // C04: at least the candidate's weight is freed
+            match r { //@ [C04,C13]
+                AdmissionResult::Admitted { victim_nodes, victims_weight } => victims_weight >= candidate.weight, //@
+                AdmissionResult::Rejected => true, //@
+            }, //@
+            // C12: no shorter prefix would do
+            match r { //@ [C12,C13]
+                AdmissionResult::Admitted { victim_nodes, victims_weight } => //@
+                    victim_nodes.v@.len() > 0 ==> wsum(deqs.probation@.take(victim_nodes.v@.len() - 1), cache@) < candidate.weight, //@
+                AdmissionResult::Rejected => true, //@
+            }, //@
+            // C13: strictly more popular than the victims together
+            match r { //@ [C13]
+                AdmissionResult::Admitted { victim_nodes, victims_weight } => candidate.freq > fsum(deqs.probation@.take(victim_nodes.v@.len() as int), *freq), //@
+                AdmissionResult::Rejected => true, //@
+            }, //@
+            // C12/C11: the node pointers handed back are exactly the nodes of that prefix, in order
+            match r { //@ [C12,C11,C08]
+                AdmissionResult::Admitted { victim_nodes, victims_weight } => //@
+                    ptr_ids(victim_nodes.v@) == deqs.probation@.take(victim_nodes.v@.len() as int).map_values(|x: N| x.id), //@
                 AdmissionResult::Rejected => true, //@
             } //@
     {
@@ -1768,8 +1792,8 @@ where
             } else {
                 // No more potential victims.
                 break;
-            } //@
-        } //@
+            }
+        }
 
         // Admit or reject the candidate.
 
@@ -1794,8 +1818,8 @@ where
                     }, //@
                     None => {}, //@
                 } //@
-            }
-        }
+            } //@
+        } //@
         if victims.weight >= candidate.weight && candidate.freq > victims.freq {
             AdmissionResult::Admitted {
                 victim_nodes,
@@ -1949,7 +1973,7 @@ where
             final(self).inv_count(), //@ [C10]
             final(self).inv_weight(), //@ [C10,C03,C04]
             // the candidate, if retained, keeps its value and weight and gets fresh timestamps (C01, C05, C06)
-            final(self).cache@.contains_key(kid_rc(key)) ==> { //@ [C01,C05,C06,C10]
+            final(self).cache@.contains_key(kid_rc(key)) ==> { //@ [C01,C05,C06,C10,C03]
                 &&& final(self).cache@[kid_rc(key)].value == old(self).cache@[kid_rc(key)].value //@
                 &&& final(self).cache@[kid_rc(key)].w() == policy_weight //@
                 &&& (old(self).sp_has_expiry() ==> final(self).cache@[kid_rc(key)].ta() == timestamp) //@
@@ -2004,12 +2028,12 @@ where
             );
             if self.time_to_live.is_some() {
                 deqs.push_back_wo(KeyDate::new(key, timestamp), entry);
-            } //@
+            }
             proof { //@
                 lemma_push_new(m0, p0, wo0, ttl, k, *entry, hash); //@
                 assert(m0.insert(k, *entry).dom() =~= m0.dom()); //@
                 assert(deqs.probation@.take(p0.len() as int) =~= p0); //@
-            }
+            } //@
             self.entry_count += 1;
             self.saturating_add_to_total_weight(policy_weight as u64);
 
@@ -2092,7 +2116,7 @@ where
                 );
                 if self.time_to_live.is_some() {
                     deqs.push_back_wo(KeyDate::new(key, timestamp), entry);
-                } //@
+                }
                 proof { //@
                     let n = vn.len() as int; //@
                     let m1 = rem(m0, p0, n); //@
@@ -2116,7 +2140,7 @@ where
                     lemma_wsum_same_entries(p1, rem(m0.remove(k), p0, n), m1.remove(k)); //@
                     lemma_wsum_nonneg(p1, m1.remove(k)); //@
                     lemma_wsum_bound(p1, m1.remove(k)); //@
-                }
+                } //@
 
                 self.entry_count += 1;
                 Self::saturating_sub_from_total_weight(self, victims_weight);
@@ -2150,7 +2174,7 @@ where
             exists|mid: Self| #[trigger] Self::rel_hk(*old(self), mid) //@ [C14]
                 && Self::rel_insert(mid, *final(self), kid(&key), value, wspec(old(self).weigher, kid(&key), value), old(self).sp_ts(), old(self).sp_hash(&key)), //@
             // the same, case by case (for attribution of a failure to the property it breaks)
-            exists|mid: Self| #[trigger] Self::rel_hk(*old(self), mid) //@ [C01,C05,C06,C10]
+            exists|mid: Self| #[trigger] Self::rel_hk(*old(self), mid) //@ [C01,C05,C06,C10,C03]
                 && Self::rel_bound(mid, *final(self), kid(&key), value, wspec(old(self).weigher, kid(&key), value), old(self).sp_ts()), //@
             exists|mid: Self| #[trigger] Self::rel_hk(*old(self), mid) //@ [C12,C10,C04]
                 && (Self::case_update(mid, kid(&key)) ==> Self::rel_updated(mid, *final(self), kid(&key), wspec(old(self).weigher, kid(&key), value))), //@
@@ -2211,14 +2235,14 @@ where
                     None => {}, //@
                 } //@
                 if self.cache@.contains_key(kk) { lemma_rem_insert(m1, p, 0, kk, entry, self.cache@[kk]); } //@
-            }
+            } //@
         }
-    } //@
+    }
 //@@ END
 
     // Returns (u64, u64) where (evicted_entry_count, evicted_policy_weight).
 //@@ FN file=src/unsync/cache.rs owner=Cache name=remove_expired_wo tags=C10,C05
-    fn remove_expired_wo(&mut self, batch_size: usize, now: Instant) -> (/*@+*/r: (/*@-*/u64, u64)/*@+*/)/*@-*/
+    fn remove_expired_wo(&mut self, batch_size: usize, now: Instant) -> (/*@+*/r: (/*@-*/u64, u64/*@+*/)/*@-*/)
         requires //@
             old(self).cfg_ok(), old(self).small(), //@
             old(self).deques.window@.len() == 0 && old(self).deques.protected@.len() == 0, //@
